@@ -18,7 +18,7 @@ var corpusTexts = []string{
 	"18446744073709551616[1]", "C[1]{bpm=0}", "C[1]{bpm=x}", "C[1]{vel=zz}", "C[1]{mtr=3}", "C[1]{mtr=0/4}", "C[1]{key=E#}", "C[1]{key=zz}",
 	"C[1]{ txt = a b , lic=x}", "C[1]{txt=a\nb}", "C[1]{txt=;not comment}", ";only comment", ";c\nC[1]", "\xff", "C\xff[1]", "C[1]\xc3",
 	"H[1]", "c[1]", "Cmaj7[1]", "C m[1]", "Cm7/G/B[1]", "C]m[1]", "C,m[1]", "C{m[1]", "C}[1]", "C=[1]", "C_=[1]", "C_/[1]",
-	"C[1]{a=b} ;trailing", "C[1]{txt=a}}", "C[1]{{txt=a}", "R[1]{key=Am} C[1]", "C[1]{key=G} D[1]", "C[１]", "C[1/٢]", "２[1]", "C７[1]", "C[1１]", "C_٢[1]", "C[1]{bpm=１}", "D[1]{key=B♭}", "D[1]{key=F♯m} E[1]", "1[1]{key=E♭}", "C[1]{key=♭B}", "C[1]{key=B♭♭}", "G7[1]", "G_7[1]", "5_7[1]", "57[1]",
+	"C[1]{a=b} ;trailing", "C[1]{txt=a}}", "C[1]{{txt=a}", "R[1]{key=Am} C[1]", "C[1]{key=G} D[1]", "\ufeffC[1]", "C\ufeffm7[1]", "C[1]{\ufefftxt=hi}", "C[1]\ufeff", "C[1] \ufeff D[1]", "C\u200bm[1]", "C[1] ;a\u2028D[1]\nE[1]", "C[1] ;a\u2029D[1]\nE[1]", "C[1] ;a\u0085D[1]\nE[1]", "C[1] ;a\rD[1]\nE[1]", "C[1]\u2028D[1]", "C[１]", "C[1/٢]", "２[1]", "C７[1]", "C[1１]", "C_٢[1]", "C[1]{bpm=１}", "D[1]{key=B♭}", "D[1]{key=F♯m} E[1]", "1[1]{key=E♭}", "C[1]{key=♭B}", "C[1]{key=B♭♭}", "G7[1]", "G_7[1]", "5_7[1]", "57[1]",
 }
 
 var symbols = []string{"", "m", "dim", "aug", "7", "M7", "maj7", "m7", "mM7", "m7b5", "dim7", "augM7", "9", "mM9", "m9", "M9", "maj9", "sus4", "7sus4", "6", "m6", "add9", "sus2"}
@@ -170,7 +170,7 @@ func mutateBytes(r *rand.Rand, b []byte) []byte {
 		i := r.Intn(len(out))
 		switch r.Intn(6) {
 		case 5:
-			ins := []string{"１", "٢", "७", "Ⅴ", "²", "é", "♮", "\u00a0", "\u2028"}[r.Intn(9)]
+			ins := []string{"１", "٢", "७", "Ⅴ", "²", "é", "♮", "\u00a0", "\u2028", "\ufeff", "\u200b", "\u2029", "\u0085", "\u3000"}[r.Intn(14)]
 			out = append(out[:i], append([]byte(ins), out[i:]...)...)
 		case 0:
 			out = append(out[:i], out[i+1:]...)
